@@ -1147,6 +1147,9 @@ impl<Store: StorageData> DbImpl<Store> {
         let values_storage;
 
         if storage.value_size(StorageIndex(1)).is_err() {
+            // Single storage transaction so that a crash (or an error) at any point
+            // of the initialization leaves the file without a partially created database.
+            let id = storage.transaction();
             storage.insert(&DbStorageIndex::default())?;
             graph_storage = DbGraph::new(&mut storage)?;
             aliases_storage = DbIndexedMap::new(&mut storage)?;
@@ -1160,6 +1163,7 @@ impl<Store: StorageData> DbImpl<Store> {
                 values: values_storage.storage_index(),
             };
             storage.insert_at(StorageIndex(1), 0, &db_storage_index)?;
+            storage.commit(id)?;
         } else {
             let index = if let Ok(index) = storage.value::<DbStorageIndex>(StorageIndex(1)) {
                 index
